@@ -581,7 +581,12 @@ class InProtocolBase(ProtocolMixin):
         encoding = self.get_cls_attrs(cls).encoding
         if encoding is BINARY_ENCODING_USE_DEFAULT:
             encoding = suggested_encoding
-        return binary_decoding_handlers[encoding](value)
+        try:
+            return binary_decoding_handlers[encoding](value)
+        except (ValueError, TypeError, AttributeError):
+            # bad padding or alphabet (binascii.Error is a ValueError), or a
+            # value that is no string at all
+            raise ValidationError(value)
 
     def file_from_bytes(self, cls, value, suggested_encoding=None):
         encoding = self.get_cls_attrs(cls).encoding
